@@ -106,6 +106,9 @@ def h_list(E, kind, attempt):
     return 'ok'
 
 
+LIST_LENGTH_KINDS = ('flat', 'flat-ordered', 'grouped', 'grouped-uneven', 'grouped-unordered', 'grouped-mixed')
+
+
 def h_list_length(E, kind, n_stu):
     """the number of submitted boxes is arbitrary: a ListGrader call either raises a library error or returns one well-formed entry per box, in box order"""
     import mitxgraders.baseclasses as B
@@ -122,6 +125,9 @@ def h_list_length(E, kind, n_stu):
             g = ListGrader(answers=exps[:3], subgraders=[TG(), TG(), TG()], ordered=True)
         elif kind == 'grouped':
             g = ListGrader(answers=[['e0', 'e1'], ['e2', 'e3']], subgraders=ListGrader(subgraders=TG()), ordered=True, grouping=[1, 1, 2, 2])
+        elif kind == 'grouped-uneven':
+            # the grouping hands three boxes to a sub-list with two answers and one box to the other (counts add up at the top level only)
+            g = ListGrader(answers=[['e0', 'e1'], ['e2', 'e3']], subgraders=ListGrader(subgraders=TG()), ordered=True, grouping=[1, 1, 1, 2])
         elif kind == 'grouped-unordered':
             g = ListGrader(answers=[['e0', 'e1'], ['e2', 'e3']], subgraders=ListGrader(subgraders=TG()), ordered=False, grouping=[1, 2, 1, 2])
         else:
@@ -280,7 +286,7 @@ def harnesses(tier):
     for kind in ('slg', 'slg-surplus', 'slg-short', 'list-ordered', 'list-unordered', 'list-of-slg'):
         for att in (False, True):
             add(h_list, 'list', dict(kind=kind, attempt=att), '2 entries, credits in [0,1]')
-    for kind in ('flat', 'flat-ordered', 'grouped', 'grouped-unordered', 'grouped-mixed'):
+    for kind in LIST_LENGTH_KINDS:
         for n_stu in range(1, 7):
             add(h_list_length, 'list_length', dict(kind=kind, n_boxes=n_stu), '1..6 submitted boxes against 3 or 4 expected; credits in [0,1]', max_paths=None if T else 60)
     for cls in ('formula', 'numerical'):
